@@ -11,6 +11,49 @@ ENGINES = [
 ]
 
 CHECKS = {
+    "C14": {
+        "text": "Static analysis: the 14 exec'd window functions are reconstructed by folding the table and the two "
+                "templates exactly as the generator does; periodic/symmetric prefix relation by construction (same "
+                "formula, size rebound to size-1 in one tuple assignment, [1.0] for size 1) for every size; formula = "
+                "documented closed form (normal form); symmetry under n -> size-n by atom typing; constant overlap-add "
+                "from harmonic sets; cross links. Values in floating point are not computed.",
+        "note": NOTE,
+        "technique": "template reconstruction (constant folding) + normal forms + harmonic-set analysis",
+    },
+    "C15": {
+        "text": "Static analysis: who-may-write check on the three stores over the whole package; pairing and order of "
+                "the writes on the single path of __setitem__ and on both arms of __delitem__ (same key tuple and value "
+                "in all three stores; KeyError propagates); lookups/iteration through the maps; StrategyDict attribute and "
+                "default handling with the same key tuple. Model equivalence over histories is not decided.",
+        "note": NOTE,
+        "technique": "ownership (who-may-write) + per-path pairing of store updates",
+    },
+    "C16": {
+        "text": "Static analysis: negative-delta guard dominates the enqueue; time counter only updated relatively "
+                "(no drift), starts at 0.5; FIFO start loop condition; protected next() of every playing iterator; no "
+                "list mutated while iterated; stop test reads keep/playing/pending between removal and the single yield; "
+                "ControlStream reads its attribute inside the loop. Numeric start samples are not computed.",
+        "note": NOTE,
+        "technique": "dominance/ordering rules + mutation-while-iterating check + PEP-479 escape analysis",
+    },
+    "C17": {
+        "text": "Static analysis of the concurrency structure: lock-order graph through the resolved call graph is "
+                "acyclic; no join under a lock the joined thread takes; _threads written only under its lock; terminate "
+                "guarded by the finished test-and-set; close() stops/joins every listed thread; stop protocol - with the "
+                "state stop() leaves behind, every untimed wait in run() is woken and every path reaches break within "
+                "one chunk; each chunk written once, unconditionally, in order. Schedules are not explored.",
+        "note": NOTE,
+        "technique": "lock-set / lock-order analysis over a resolved call graph + abstract walk of the stop protocol",
+    },
+    "C18": {
+        "text": "Static analysis: stdlib attributes used on array/Struct/Wave_read objects exist on this interpreter; the "
+                "two chunk strategies share a signature and read every parameter; byte-order swap table vs sys.byteorder "
+                "and swap-back; counter automaton of chunks.array; unpacker table (little-endian, calcsize = width + "
+                "prefix, 24-bit zero-prefix and >> 8); normalisation by 1 << (bits-1) with the 8-bit offset; file closed "
+                "in a finally. Byte-exact round trips are not executed.",
+        "note": NOTE,
+        "technique": "stdlib availability (reflection) + sibling-parameter rule + format-table checks",
+    },
     "C07": {
         "text": "Static analysis: the coefficient store is written only through the compacting constructor/__setitem__/"
                 "zero setter (no zero coefficient can be stored); term-wise identities of *, +, -, unary, ** and / in "
@@ -148,5 +191,4 @@ CHECKS = {
     },
 }
 
-_PENDING = "check under construction in this session; not claimed until its rules are armed and validated"
-NOT_APPLICABLE = {("C%02d" % i): _PENDING for i in range(1, 21) if ("C%02d" % i) not in CHECKS}
+NOT_APPLICABLE = {}
